@@ -8,7 +8,7 @@ func init() {
 			*list = append(*list, &Job{Pkg: pkg, Func: fn, Args: args, Bounds: bounds})
 		}
 		bh := "content of 0..5 symbolic bytes (length case-split); fragmenting readers: <=2 short reads, last fragment with or without io.EOF; WriterTo reusing its buffer"
-		for k := int64(0); k < 10; k++ {
+		for k := int64(0); k < 14; k++ {
 			add(&quick, "utils", "ZZ_C14_ToBytes", bh, k)
 			add(&quick, "utils", "ZZ_C14_ToReader", bh, k)
 		}
@@ -75,6 +75,7 @@ func init() {
 			}
 			*l = append(*l, &Job{Pkg: "codec/format", Func: "ZZ_C16_Text", Args: []int64{p, 1}, Bounds: b})
 		}
+		quick = append(quick, &Job{Pkg: "codec/format", Func: "ZZ_C16_Text", Args: []int64{7, 0}, Bounds: b})
 		for u := int64(0); u <= 3; u++ {
 			quick = append(quick, &Job{Pkg: "codec/format", Func: "ZZ_C16_TextRetained", Args: []int64{u}, Bounds: "two strings of 1..3 symbolic bytes through one codec chain (packet / length-field / delimiter / varint codec underneath); both strings compared after the second delivery"})
 		}
